@@ -947,9 +947,51 @@ pub fn run_c10(ctx: &Ctx) -> i32 {
             out.violation("C10|history-dependent|stream", format!("Tukey alpha {a1} (block {b1}) then alpha {a2} (block {b2}) on one thread gives different bytes than alpha {a2} alone"), rpj(ctx, "pairs", idx, json!({"alpha_first": a1, "alpha_second": a2, "blocks": [b1, b2], "signal": a.recipe})));
         }
     });
+    // many distinct block lengths (and window parameters) on one thread: per-thread caches keyed
+    // by length grow, get evicted or collide; lengths decrease, increase or shuffle
+    let n = ctx.tier.pick(12, 300);
+    run_cases(ctx, "manylengths", n, &mut out, |idx, out| {
+        let mut rng = Rng::for_case(ctx.seed, "C10.manylengths", idx);
+        let count = 70 + rng.usize_below(60);
+        let base = 64 + rng.usize_below(200);
+        let mut lens: Vec<usize> = (0..count).map(|k| base + k * (1 + rng.usize_below(3))).collect();
+        match idx % 3 {
+            0 => lens.reverse(),
+            1 => {}
+            _ => {
+                for i in (1..lens.len()).rev() {
+                    lens.swap(i, rng.usize_below(i + 1));
+                }
+            }
+        }
+        let bps = *rng.pick(&[16usize, 24, 8]);
+        let maxlen = *lens.iter().max().unwrap();
+        let a = gen::gen_audio_family(&mut rng, 1, bps, 44100, maxlen, "sine_noise");
+        let alphas: [f32; 3] = [0.4, 0.5, 0.1];
+        for (i, l) in lens.iter().enumerate() {
+            let mut cfg = config::Encoder::default();
+            cfg.multithread = false;
+            cfg.block_size = 4096;
+            cfg.subframe_coding.qlpc.window = if i % 7 == 3 { Window::Rectangle } else { Window::Tukey { alpha: alphas[i % 3] } };
+            let case = Case { audio: Arc::new(Audio { channels: 1, bps, rate: 44100, samples: a.samples[..*l].to_vec(), recipe: format!("sine_noise[..{l}]") }), cfg, block: 4096, mode: FillMode::Int, hint: true };
+            let call = Call::Stream(case);
+            let got = call.exec();
+            let want = fresh_result(&cache, &call);
+            out.evaluations += 1;
+            if got != *want {
+                out.violation(
+                    "C10|history-dependent|stream",
+                    format!("call #{i} of {count} single-block streams of distinct lengths ({:?}..): in-history {:?} vs fresh {:?}", &lens[..4], got.as_ref().map(Vec::len).map_err(|e| e.chars().take(120).collect::<String>()), want.as_ref().as_ref().map(Vec::len).map_err(|e| e.chars().take(60).collect::<String>())),
+                    rpj(ctx, "manylengths", idx, json!({"lengths": lens, "failing_call_index": i})),
+                );
+                break;
+            }
+        }
+        out.distinct.insert(prng::hash_str(&format!("{lens:?}")));
+    });
     let fin = Finish {
         level: "exploration",
-        rule: "each history (5-40 calls drawn from a pool of 3-6 related cases that differ in block size incl. shrinking/growing, channel count, width, LPC order/precision, Rice limit, window incl. alphas closer than 2^-16; calls = stream encode->ByteSink, stream encode->MemSink<u64>, frame-level encode, encode->parse->re-serialise; single- and multi-thread) runs call by call on ONE long-lived thread and every result must equal the same call executed alone on a freshly spawned thread (fresh thread-locals); 'pairs' = targeted two-call histories for the window cache; evaluations = calls compared; distinct by call sequence",
+        rule: "each history (5-40 calls drawn from a pool of 3-6 related cases that differ in block size incl. shrinking/growing, channel count, width, LPC order/precision, Rice limit, window incl. alphas closer than 2^-16; calls = stream encode->ByteSink, stream encode->MemSink<u64>, frame-level encode, encode->parse->re-serialise; single- and multi-thread) runs call by call on ONE long-lived thread and every result must equal the same call executed alone on a freshly spawned thread (fresh thread-locals); 'pairs' = targeted two-call histories for the window cache; 'manylengths' = 70-130 single-block streams of distinct lengths (decreasing / increasing / shuffled, several windows) on one thread; evaluations = calls compared; distinct by call sequence",
         assumptions: vec!["a freshly spawned OS thread has freshly initialised thread-local buffers".into()],
         exhaustive: None,
         floors: vec![],
